@@ -432,13 +432,21 @@ pub fn get_file_change_description_from_file_paths(
             plus_file
         )
     } else {
-        let format_file = |file| {
+        let format_file = |file: &str| -> String {
+            // handle_diff_header_misc_line appends a note to the names of binary files; the
+            // note is displayed but is not part of the path that a hyperlink points to.
+            const BINARY_NOTE: &str = " (binary file)";
+            let (file, note) = match file.strip_suffix(BINARY_NOTE) {
+                Some(path) => (path, BINARY_NOTE),
+                None => (file, ""),
+            };
             let formatted_file = if let Some(regex_replacement) = &config.file_regex_replacement {
                 regex_replacement.execute(file)
             } else {
                 Cow::from(file)
             };
-            match (config.hyperlinks, utils::path::absolute_path(file, config)) {
+            let formatted_file = match (config.hyperlinks, utils::path::absolute_path(file, config))
+            {
                 (true, Some(absolute_path)) => features::hyperlinks::format_osc8_file_hyperlink(
                     absolute_path,
                     None,
@@ -446,7 +454,8 @@ pub fn get_file_change_description_from_file_paths(
                     config,
                 ),
                 _ => formatted_file,
-            }
+            };
+            format!("{formatted_file}{note}")
         };
         match (minus_file, plus_file, minus_file_event, plus_file_event) {
             (minus_file, plus_file, _, _) if minus_file == plus_file => format!(
